@@ -62,7 +62,7 @@ def describe(c):
 
 def run(ctx):
     rep, rng, sc = ctx.rep, ctx.rng, ctx.scratch
-    cases = gen_cases(rng, 360 if ctx.thorough else 120, ctx.thorough)
+    cases = gen_cases(rng, 1800 if ctx.thorough else 120, ctx.thorough)
     jobs = []
     for c in cases:
         parts = [c["events"]] if c["cut"] is None else [c["events"][:c["cut"]], c["events"][c["cut"]:]]
